@@ -376,6 +376,541 @@ def run_families(start, stop):
     return n, failures, counters
 
 
+# ------------------------------------------------------------------------------------------------------------
+# The coders of the Python front end under the properties that the Rust front end is checked for.
+# Every sweep is an exhaustive enumeration over a small alphabet of words / symbols / models / call forms.
+WORDS = [0, 1, 2, 0x00010000, 0x12345678, 0x7fffffff, 0x80000000, 0xffffffff]
+ANS = constriction.stream.stack.AnsCoder
+RENC = constriction.stream.queue.RangeEncoder
+RDEC = constriction.stream.queue.RangeDecoder
+CHAIN = constriction.stream.chain.ChainCoder
+
+
+class Quiet:
+    """silences the panic backtraces that a caught PanicException leaves on stderr"""
+    def __enter__(self):
+        self.devnull = open(os.devnull, "w"); self.saved = os.dup(2); os.dup2(self.devnull.fileno(), 2)
+    def __exit__(self, *a):
+        os.dup2(self.saved, 2); os.close(self.saved); self.devnull.close()
+
+
+def is_panic(e):
+    return type(e).__name__ == "PanicException" or not isinstance(e, Exception)
+
+
+def word_strings(min_len, max_len, alphabet=WORDS):
+    for n in range(min_len, max_len + 1):
+        for t in itertools.product(alphabet, repeat=n):
+            yield np.array(t, dtype=np.uint32)
+
+
+def coder_models():
+    """(name, concrete model, family, parameter arrays for n symbols -> tuple, support (lo, hi))"""
+    g_means = [0.4, -2.2, 7.5, 0.0, 1.1, -0.3, 2.9, -1.7]
+    g_stds = [1.3, 0.2, 4.0, 1e-3, 30.0, 0.9, 2.5, 0.6]
+    tables = [[0.2, 0.5, 0.3], [0.999, 0.0005, 0.0005], [0.1, 0.2, 0.7], [1 / 3, 1 / 3, 1 / 3]]
+    return [
+        ("categorical", M.Categorical(np.array([0.2, 0.5, 0.3]), perfect=False), M.Categorical(perfect=False),
+         lambda n: (np.array([tables[i % 4] for i in range(n)], dtype=np.float64),), (0, 2)),
+        ("lazy categorical", M.Categorical(np.array([0.1, 0.2, 0.3, 0.4], dtype=np.float32), lazy=True), M.Categorical(lazy=True),
+         lambda n: (np.array([tables[(i + 1) % 4] for i in range(n)], dtype=np.float32),), (0, 3)),
+        ("gaussian", M.QuantizedGaussian(-3, 3, 0.4, 1.3), M.QuantizedGaussian(-3, 3),
+         lambda n: (np.array(g_means[:n]), np.array(g_stds[:n])), (-3, 3)),
+        ("uniform", M.Uniform(5), M.Uniform(),
+         lambda n: (np.array([5, 2, 7, 3, 2, 9, 4, 6][:n], dtype=np.int32),), (0, 8)),
+        ("bernoulli", M.Bernoulli(0.3, perfect=False), M.Bernoulli(perfect=False),
+         lambda n: (np.array([0.3, 0.999, 1e-9, 0.5, 0.7, 0.01, 0.25, 0.6][:n]),), (0, 1)),
+    ]
+
+
+def decode_forms(coder, model, family, params, n):
+    """the three documented ways of decoding n symbols"""
+    yield "one symbol per call", lambda c: [int(c.decode(model)) for _ in range(n)]
+    yield "decode(model, amt)", lambda c: [int(x) for x in c.decode(model, n)]
+    yield "decode(family, parameter arrays)", lambda c: [int(x) for x in c.decode(family, *params(n))]
+
+
+def run_decoders(max_len):
+    """C10: any words, any decoder of the front end, any call form: symbols inside the support or the documented error"""
+    failures, n = [], 0
+    counters = {"py_decoder_cases": 0, "py_decoder_documented_errors": 0, "py_decoder_refused_constructions": 0, "py_decoder_symbols": 0}
+    seen = set()
+    def fail(what, detail):
+        if what not in seen or len([f for f in failures if f["what"] == what]) < 3:
+            failures.append({"what": what, "detail": detail})
+        seen.add(what)
+    decs = [("AnsCoder(words)", lambda w: ANS(w), ()), ("AnsCoder(words, seal=True)", lambda w: ANS(w, True), ()),
+            ("RangeDecoder(words)", lambda w: RDEC(w), (AssertionError,)),
+            ("ChainCoder(words)", lambda w: CHAIN(w, False, False), (AssertionError,)),
+            ("ChainCoder(words, seal=True)", lambda w: CHAIN(w, False, True), (AssertionError,)),
+            ("ChainCoder(words, is_remainders=True)", lambda w: CHAIN(w, True, False), (AssertionError,))]
+    models = coder_models()
+    with Quiet():
+        for w in word_strings(0, max_len):
+            for dname, make, allowed in decs:
+                for mname, model, family, params, (lo, hi) in models:
+                    for nsym in (1, 6):
+                        for fname, run in decode_forms(None, model, family, params, nsym):
+                            n += 1; counters["py_decoder_cases"] += 1
+                            try:
+                                c = make(w)
+                            except Exception as e:
+                                if is_panic(e):
+                                    fail(f"Python front end | {dname} | construction from arbitrary words panics", f"words {[hex(int(x)) for x in w]}: {type(e).__name__}: {str(e)[:120]}")
+                                else:
+                                    counters["py_decoder_refused_constructions"] += 1
+                                continue
+                            except BaseException as e:
+                                fail(f"Python front end | {dname} | construction from arbitrary words panics", f"words {[hex(int(x)) for x in w]}: {type(e).__name__}: {str(e)[:120]}")
+                                continue
+                            try:
+                                out = run(c)
+                            except BaseException as e:
+                                if isinstance(e, allowed) and not is_panic(e):
+                                    counters["py_decoder_documented_errors"] += 1
+                                else:
+                                    fail(f"Python front end | {dname}.decode, {fname} | arbitrary words make decoding panic or fail with an undocumented error",
+                                         f"words {[hex(int(x)) for x in w]}, {mname} model, {nsym} symbol(s): {type(e).__name__}: {str(e)[:120]}")
+                                continue
+                            counters["py_decoder_symbols"] += len(out)
+                            if len(out) != nsym or any(o < lo or o > hi for o in out):
+                                fail(f"Python front end | {dname}.decode, {fname} | decoded symbol outside the support",
+                                     f"words {[hex(int(x)) for x in w]}, {mname} model: {out}")
+    return n, failures, counters
+
+
+def run_bitsback(max_len):
+    """C04 through the Python front end: AnsCoder(words, seal=True) -> decode -> encode back -> get_compressed(unseal=True)"""
+    failures, n = [], 0
+    counters = {"py_bitsback_cases": 0, "py_bitsback_symbols": 0}
+    models = coder_models()
+    with Quiet():
+        for w in word_strings(0, max_len):
+            for sealed in (True, False):
+                if not sealed and (len(w) == 0 or w[-1] == 0):
+                    continue
+                for mname, model, family, params, _ in models:
+                    for nsym in (1, 2, 5):
+                        for fname, run in decode_forms(None, model, family, params, nsym):
+                            n += 1; counters["py_bitsback_cases"] += 1
+                            try:
+                                c = ANS(w, True) if sealed else ANS(w)
+                                bits0 = c.num_valid_bits() if sealed else None
+                                syms = np.array(run(c), dtype=np.int32)
+                                counters["py_bitsback_symbols"] += len(syms)
+                                if fname == "decode(family, parameter arrays)":
+                                    c.encode_reverse(syms, family, *params(nsym))
+                                elif fname == "decode(model, amt)":
+                                    c.encode_reverse(syms, model)
+                                else:
+                                    for x in syms[::-1]:
+                                        c.encode_reverse(int(x), model)
+                                back = c.get_compressed(unseal=True) if sealed else c.get_compressed()
+                                if not np.array_equal(back, w):
+                                    failures.append({"what": f"Python front end | AnsCoder, {fname} | decoding from arbitrary bits and encoding the symbols back does not restore the bits",
+                                                     "detail": f"words {[hex(int(x)) for x in w]} (seal={sealed}), {mname} model, symbols {list(syms)}: got {[hex(int(x)) for x in back]}"})
+                                if sealed and bits0 != 32 * len(w):
+                                    failures.append({"what": "Python front end | AnsCoder.num_valid_bits | not the size of the sealed data", "detail": f"{len(w)} words: {bits0}"})
+                            except BaseException as e:
+                                failures.append({"what": f"Python front end | AnsCoder, {fname} | bits-back round trip raises", "detail": f"words {[hex(int(x)) for x in w]} (seal={sealed}), {mname} model: {type(e).__name__}: {str(e)[:120]}"})
+                            if len(failures) > 40:
+                                return n, failures, counters
+    return n, failures, counters
+
+
+def run_chain(max_len):
+    """C13 through the Python front end: decode from arbitrary data, export the remainders, re-import, encode back"""
+    failures, n = [], 0
+    counters = {"py_chain_cases": 0, "py_chain_out_of_data": 0, "py_chain_restored": 0, "py_chain_refused_constructions": 0}
+    models = coder_models()
+    def fail(what, detail):
+        if len([f for f in failures if f["what"] == what]) < 3:
+            failures.append({"what": what, "detail": detail})
+    with Quiet():
+        for w in word_strings(2, max_len):
+            for sealed in (True, False):
+                for mname, model, family, params, _ in models:
+                    for nsym in (1, 3, 6):
+                        for fname, run in decode_forms(None, model, family, params, nsym):
+                            n += 1; counters["py_chain_cases"] += 1
+                            try:
+                                c = CHAIN(w, False, sealed)
+                            except Exception as e:
+                                if is_panic(e):
+                                    fail("Python front end | ChainCoder(words) | construction panics", f"{[hex(int(x)) for x in w]}: {e}")
+                                counters["py_chain_refused_constructions"] += 1
+                                continue
+                            try:
+                                syms = np.array(run(c), dtype=np.int32)
+                            except BaseException:
+                                counters["py_chain_out_of_data"] += 1   # judged by the C10 sweep
+                                continue
+                            def encode_back(coder):
+                                if fname == "decode(family, parameter arrays)":
+                                    coder.encode_reverse(syms, family, *params(nsym))
+                                elif fname == "decode(model, amt)":
+                                    coder.encode_reverse(syms, model)
+                                else:
+                                    for x in syms[::-1]:
+                                        coder.encode_reverse(int(x), model)
+                            try:
+                                # (a) on the same coder
+                                twin = c.clone()
+                                encode_back(twin)
+                                d1, d2 = twin.get_data(unseal=sealed)
+                                if not np.array_equal(np.concatenate([d1, d2]), w):
+                                    fail(f"Python front end | ChainCoder, {fname} | decode then encode on the same coder does not restore the data",
+                                         f"words {[hex(int(x)) for x in w]} (seal={sealed}), {mname}, symbols {list(syms)}: {[hex(int(x)) for x in np.concatenate([d1, d2])]}")
+                                # (b) documented route: concatenated remainders
+                                r1, r2 = c.get_remainders()
+                                c2 = CHAIN(np.concatenate([r1, r2]), True, False)
+                                encode_back(c2)
+                                d1, d2 = c2.get_data(unseal=sealed)
+                                if not np.array_equal(np.concatenate([d1, d2]), w):
+                                    fail(f"Python front end | ChainCoder, {fname} | get_remainders -> ChainCoder(is_remainders=True) -> encode_reverse -> get_data does not restore the data",
+                                         f"words {[hex(int(x)) for x in w]} (seal={sealed}), {mname}, symbols {list(syms)}: {[hex(int(x)) for x in np.concatenate([d1, d2])]}")
+                                # (c) only the second item of the pair, the first one kept apart
+                                c3 = CHAIN(r2, True, False)
+                                encode_back(c3)
+                                e1, e2 = c3.get_data(unseal=False) if len(r1) else c3.get_data(unseal=sealed)
+                                got = np.concatenate([r1, e1, e2])
+                                want = w if len(r1) == 0 or not sealed else None
+                                if len(r1) and sealed:
+                                    # the unused prefix r1 is the front of the sealed data; what c3 restores is the rest incl. the seal
+                                    full = CHAIN(np.concatenate([r1, e1, e2]), False, False)
+                                    f1, f2 = full.get_data(unseal=True)
+                                    got, want = np.concatenate([f1, f2]), w
+                                if not np.array_equal(got, want):
+                                    fail(f"Python front end | ChainCoder, {fname} | re-importing only the second remainders item and keeping the first apart does not restore the data",
+                                         f"words {[hex(int(x)) for x in w]} (seal={sealed}), {mname}, symbols {list(syms)}: {[hex(int(x)) for x in got]}")
+                                counters["py_chain_restored"] += 1
+                            except BaseException as e:
+                                fail(f"Python front end | ChainCoder, {fname} | restoring the data raises", f"words {[hex(int(x)) for x in w]} (seal={sealed}), {mname}, symbols {list(syms)}: {type(e).__name__}: {str(e)[:160]}")
+    return n, failures, counters
+
+
+def small_messages(alphabet, max_len):
+    for n in range(0, max_len + 1):
+        for t in itertools.product(alphabet, repeat=n):
+            yield list(t)
+
+
+def run_seek(max_len):
+    """C07 through the Python front end: snapshots of an encoder, every ordered pair of seeks on a decoder"""
+    failures, n = [], 0
+    counters = {"py_seek_messages": 0, "py_seek_pairs": 0, "py_seek_refused": 0}
+    def fail(what, detail):
+        if len([f for f in failures if f["what"] == what]) < 3:
+            failures.append({"what": what, "detail": detail})
+    cat = M.Categorical(np.array([0.2, 0.5, 0.3]), perfect=False)
+    skew = M.Categorical(np.array([1e-7, 1.0 - 2e-7, 1e-7]), perfect=False)   # 24-bit and near-zero-bit symbols: words are emitted at irregular boundaries
+    gauss = M.QuantizedGaussian(0, 2, 0.9, 0.7)
+    programs = [("categorical", lambda i: cat), ("alternating skewed / gaussian", lambda i: skew if i % 2 == 0 else gauss), ("skewed", lambda i: skew)]
+    with Quiet():
+        for pname, model_at in programs:
+            for msg in small_messages([0, 1, 2], max_len):
+                counters["py_seek_messages"] += 1
+                L = len(msg)
+                # --- range coder: snapshot i lies in front of symbol i
+                enc = RENC()
+                snaps = []
+                for i, sym in enumerate(msg):
+                    snaps.append(enc.pos())
+                    enc.encode(sym, model_at(i))
+                snaps.append(enc.pos())
+                words = enc.get_compressed()
+                dec = RDEC(words)
+                for i in range(L + 1):
+                    for j in range(L + 1):
+                        n += 1; counters["py_seek_pairs"] += 1
+                        try:
+                            dec.seek(*snaps[i])
+                            got_i = [int(dec.decode(model_at(k))) for k in range(i, min(i + 1, L))]
+                            dec.seek(*snaps[j])
+                            got_j = [int(dec.decode(model_at(k))) for k in range(j, L)]
+                        except BaseException as e:
+                            fail("Python front end | RangeDecoder.seek | seeking to a recorded position raises", f"{pname}, message {msg}, snapshots {i} then {j}: {type(e).__name__}: {str(e)[:100]}")
+                            dec = RDEC(words)
+                            continue
+                        if got_i != msg[i:i + 1] or got_j != msg[j:]:
+                            fail("Python front end | RangeDecoder.seek | decoding after seek does not resume at the recorded position", f"{pname}, message {msg}, snapshots {i} then {j}: {got_i} / {got_j}")
+                # a position beyond the data is refused and leaves the decoder usable
+                try:
+                    dec.seek(len(words) + 1, snaps[0][1])
+                    fail("Python front end | RangeDecoder.seek | a position beyond the data is accepted", f"{pname}, message {msg}")
+                except Exception as e:
+                    counters["py_seek_refused"] += 1
+                    if is_panic(e): fail("Python front end | RangeDecoder.seek | a position beyond the data panics", f"{pname}, message {msg}: {e}")
+                except BaseException as e:
+                    fail("Python front end | RangeDecoder.seek | a position beyond the data panics", f"{pname}, message {msg}: {e}")
+                try:
+                    dec.seek(*snaps[0])
+                    if [int(dec.decode(model_at(k))) for k in range(L)] != msg:
+                        fail("Python front end | RangeDecoder.seek | decoder unusable after a refused seek", f"{pname}, message {msg}")
+                except BaseException as e:
+                    fail("Python front end | RangeDecoder.seek | decoder unusable after a refused seek", f"{pname}, message {msg}: {e}")
+                # --- ANS: snapshot i is taken when symbols i.. are on the stack; seeking consumes
+                coder = ANS()
+                asn = [None] * (L + 1)
+                asn[L] = coder.pos()
+                for i in range(L - 1, -1, -1):
+                    coder.encode_reverse(msg[i], model_at(i))
+                    asn[i] = coder.pos()
+                words = coder.get_compressed()
+                for i in range(L + 1):
+                    for j in range(i, L + 1):
+                        n += 1; counters["py_seek_pairs"] += 1
+                        try:
+                            c = ANS(words) if len(words) else ANS()
+                            c.seek(*asn[i])
+                            # (seeking consumes: after a decode only a LATER snapshot can be reached)
+                            got_i = [int(c.decode(model_at(k))) for k in range(i, min(i + 1, L))] if j > i else msg[i:i + 1]
+                            c.seek(*asn[j])
+                            got_j = [int(c.decode(model_at(k))) for k in range(j, L)]
+                            if got_i != msg[i:i + 1] or got_j != msg[j:]:
+                                fail("Python front end | AnsCoder.seek | decoding after seek does not resume at the recorded position", f"{pname}, message {msg}, snapshots {i} then {j}: {got_i} / {got_j}")
+                            if not c.is_empty():
+                                fail("Python front end | AnsCoder.seek | coder not empty after decoding everything beyond the snapshot", f"{pname}, message {msg}, snapshots {i} then {j}")
+                        except BaseException as e:
+                            fail("Python front end | AnsCoder.seek | seeking forward to a recorded position raises", f"{pname}, message {msg}, snapshots {i} then {j}: {type(e).__name__}: {str(e)[:100]}")
+                # backward / beyond the data: refused, coder unchanged
+                c = ANS(words) if len(words) else ANS()
+                before = c.get_compressed()
+                try:
+                    c.seek(len(words) + 1, asn[0][1])
+                    fail("Python front end | AnsCoder.seek | a position beyond the data is accepted", f"{pname}, message {msg}")
+                except Exception as e:
+                    counters["py_seek_refused"] += 1
+                    if is_panic(e): fail("Python front end | AnsCoder.seek | a position beyond the data panics", f"{pname}, message {msg}: {e}")
+                except BaseException as e:
+                    fail("Python front end | AnsCoder.seek | a position beyond the data panics", f"{pname}, message {msg}: {e}")
+                if not np.array_equal(c.get_compressed(), before):
+                    fail("Python front end | AnsCoder.seek | a refused seek changes the coder", f"{pname}, message {msg}")
+    return n, failures, counters
+
+
+def run_impossible(max_len):
+    """C09 through the Python front end: impossible symbols at every position of every short message"""
+    failures, n = [], 0
+    counters = {"py_impossible_insertions": 0, "py_impossible_batches": 0}
+    def fail(what, detail):
+        if len([f for f in failures if f["what"] == what]) < 3:
+            failures.append({"what": what, "detail": detail})
+    models = [("categorical", M.Categorical(np.array([0.2, 0.5, 0.3]), perfect=False), [0, 1, 2], [3, -1, 2**24, 2**24 + 1, 2**31 - 1, -2**31, 256, 65536 + 1]),
+              ("gaussian", M.QuantizedGaussian(-3, 3, 0.4, 1.3), [-3, 0, 3], [4, -4, 2**24 - 3, 2**31 - 1, -2**31]),
+              ("uniform", M.Uniform(5), [0, 4], [5, -1, 2**24, 2**24 + 4, 2**31 - 1]),
+              ("bernoulli", M.Bernoulli(0.3, perfect=False), [0, 1], [2, -1, 2**24, 2**24 + 1])]
+    data = np.array([0x12345678, 0x9abcdef0, 0x0fedcba9, 0x13579bdf, 0x2468ace0, 0xdeadbeef], dtype=np.uint32)
+    def coders():
+        yield "AnsCoder", lambda: ANS(), lambda c, s, m: c.encode_reverse(s, m), lambda c: [int(x) for x in c.get_compressed()], lambda c, m, k: [int(x) for x in c.decode(m, k)]
+        yield "RangeEncoder", lambda: RENC(), lambda c, s, m: c.encode(s, m), lambda c: ([int(x) for x in c.get_compressed()], c.pos()), lambda c, m, k: [int(x) for x in c.get_decoder().decode(m, k)]
+        yield "ChainCoder", lambda: CHAIN(data, True, False), lambda c, s, m: c.encode_reverse(s, m), lambda c: [[int(x) for x in a] for a in c.get_remainders()], None
+    with Quiet():
+        for mname, model, sup, imps in models:
+            for cname, make, enc, state, dec in coders():
+                for msg in small_messages(sup[:2], max_len):
+                    for pos in range(len(msg) + 1):
+                        for imp in imps:
+                            n += 1; counters["py_impossible_insertions"] += 1
+                            c = make()
+                            try:
+                                for s_ in msg[:pos]:
+                                    enc(c, s_, model)
+                                before = state(c)
+                                try:
+                                    enc(c, imp, model)
+                                    fail(f"Python front end | {cname} | impossible symbol is accepted", f"{mname}: symbol {imp} after {msg[:pos]}")
+                                    continue
+                                except KeyError:
+                                    pass
+                                except BaseException as e:
+                                    fail(f"Python front end | {cname} | impossible symbol does not raise the documented KeyError", f"{mname}: symbol {imp} after {msg[:pos]}: {type(e).__name__}: {str(e)[:100]}")
+                                    continue
+                                if state(c) != before:
+                                    fail(f"Python front end | {cname} | refused symbol changes the coder", f"{mname}: symbol {imp} after {msg[:pos]}")
+                                for s_ in msg[pos:]:
+                                    enc(c, s_, model)
+                                if dec is not None:
+                                    want = msg[::-1] if cname == "AnsCoder" else msg
+                                    got = dec(c, model, len(msg)) if len(msg) else []
+                                    if got != want:
+                                        fail(f"Python front end | {cname} | history with a refused symbol does not round-trip", f"{mname}: {msg} with {imp} refused at {pos}: {got}")
+                            except BaseException as e:
+                                fail(f"Python front end | {cname} | history with a refused symbol raises", f"{mname}: {msg} with {imp} at {pos}: {type(e).__name__}: {str(e)[:100]}")
+                # batches with an impossible symbol: KeyError, and what is on the coder afterwards are the symbols that
+                # precede the refused one in coding order
+                if cname == "ChainCoder":
+                    continue
+                for msg in small_messages(sup[:2], min(max_len, 3)):
+                    for pos in range(len(msg) + 1):
+                        n += 1; counters["py_impossible_batches"] += 1
+                        batch = msg[:pos] + [imps[0]] + msg[pos:]
+                        c = make()
+                        try:
+                            try:
+                                enc(c, np.array(batch, dtype=np.int32), model)
+                                fail(f"Python front end | {cname} | batch with an impossible symbol is accepted", f"{mname}: {batch}")
+                                continue
+                            except KeyError:
+                                pass
+                            done = msg[pos:] if cname == "AnsCoder" else msg[:pos]   # coded before the refusal
+                            ref = make()
+                            if len(done):
+                                enc(ref, np.array(done, dtype=np.int32), model)
+                            same = state(c) == state(ref)
+                            got = dec(c, model, len(done)) if len(done) else []
+                            if got != done or not same:
+                                fail(f"Python front end | {cname} | a refused batch leaves something other than the symbols coded before the refusal", f"{mname}: batch {batch}: decodes {got}, expected {done}")
+                        except BaseException as e:
+                            fail(f"Python front end | {cname} | batch with an impossible symbol: undocumented failure", f"{mname}: {batch}: {type(e).__name__}: {str(e)[:100]}")
+    return n, failures, counters
+
+
+def run_sizes(max_len):
+    """C08 / C18 through the Python front end: size queries vs the export, inspections change nothing"""
+    failures, n = [], 0
+    counters = {"py_size_nodes": 0}
+    def fail(what, detail):
+        if len([f for f in failures if f["what"] == what]) < 3:
+            failures.append({"what": what, "detail": detail})
+    cat = M.Categorical(np.array([0.2, 0.5, 0.3]), perfect=False)
+    skew = M.Categorical(np.array([1e-7, 1.0 - 2e-7, 1e-7]), perfect=False)
+    with Quiet():
+        for msg in small_messages([0, 1, 2], max_len):
+            for model in (cat, skew):
+                n += 1; counters["py_size_nodes"] += 1
+                a, a2 = ANS(), ANS()
+                r, r2 = RENC(), RENC()
+                for s_ in msg:
+                    a.encode_reverse(s_, model); a2.encode_reverse(s_, model)
+                    r.encode(s_, model); r2.encode(s_, model)
+                    # inspect one twin between the symbols
+                    a.get_compressed(); a.num_words(); a.num_bits(); a.num_valid_bits(); a.is_empty(); a.pos(); a.clone()
+                    r.get_compressed(); r.num_words(); r.num_bits(); r.is_empty(); r.pos(); r.clone(); r.get_decoder()
+                for name, c, twin in (("AnsCoder", a, a2), ("RangeEncoder", r, r2)):
+                    w = c.get_compressed()
+                    if not np.array_equal(w, twin.get_compressed()):
+                        fail(f"Python front end | {name} | inspections between symbols change the output", f"message {msg}")
+                    if c.num_words() != len(w) or c.num_bits() != 32 * len(w) or c.is_empty() != (len(w) == 0):
+                        fail(f"Python front end | {name} | num_words / num_bits / is_empty disagree with get_compressed", f"message {msg}: {c.num_words()}, {c.num_bits()}, {c.is_empty()} vs {len(w)} words")
+                    if not np.array_equal(c.get_compressed(), w):
+                        fail(f"Python front end | {name}.get_compressed | second call returns something else", f"message {msg}")
+                if len(msg):
+                    d = r.get_decoder()
+                    out = [int(x) for x in d.decode(model, len(msg))]
+                    if out != msg:
+                        fail("Python front end | RangeEncoder.get_decoder | does not decode the message", f"{msg}: {out}")
+                    if not d.maybe_exhausted():
+                        fail("Python front end | RangeDecoder.maybe_exhausted | false after decoding exactly the encoded symbols", f"message {msg}")
+                    vb = a.num_valid_bits()
+                    if vb > a.num_bits() or vb + 32 <= a.num_bits() and a.num_words() > 2:
+                        fail("Python front end | AnsCoder.num_valid_bits | outside (num_bits - 32, num_bits]", f"message {msg}: {vb} vs {a.num_bits()}")
+                a.clear(); r.clear()
+                if not a.is_empty() or not r.is_empty() or len(a.get_compressed()) or len(r.get_compressed()):
+                    fail("Python front end | clear | coder not empty afterwards", f"message {msg}")
+    return n, failures, counters
+
+
+def huffman_reference_cost(weights):
+    import heapq
+    h = list(weights); heapq.heapify(h); cost = 0.0
+    while len(h) > 1:
+        x, y = heapq.heappop(h), heapq.heappop(h); cost += x + y; heapq.heappush(h, x + y)
+    return cost
+
+
+def run_symbol(max_len):
+    """C15 / C16 through the Python front end: Huffman trees from every short weight vector, stack and queue coders"""
+    failures, n = [], 0
+    counters = {"py_huffman_books": 0, "py_symbol_messages": 0, "py_huffman_refused": 0}
+    def fail(what, detail):
+        if len([f for f in failures if f["what"] == what]) < 3:
+            failures.append({"what": what, "detail": detail})
+    S = constriction.symbol
+    H = S.huffman
+    letters = [0.0, 1.0, 2.0, 3.0, 0.5, 1e-30, -1.0, float("nan"), float("inf")]
+    with Quiet():
+        for k in range(1, max_len + 1):
+            for wts in itertools.product(letters, repeat=k):
+                for dt in (np.float32, np.float64):
+                    n += 1
+                    arr = np.array(wts, dtype=dt)
+                    try:
+                        eb, db = H.EncoderHuffmanTree(arr), H.DecoderHuffmanTree(arr)
+                    except BaseException as e:
+                        counters["py_huffman_refused"] += 1
+                        if all(math.isfinite(x) and x >= 0 for x in wts):
+                            fail("Python front end | HuffmanTree(probabilities) | valid weights are refused", f"{wts}: {type(e).__name__}: {str(e)[:100]}")
+                        continue
+                    counters["py_huffman_books"] += 1
+                    # codeword lengths through the stack coder
+                    lens = []
+                    for sym in range(k):
+                        st = S.StackCoder(); st.encode_symbol(sym, eb)
+                        w, bits = st.get_compressed_and_bitrate()
+                        lens.append(bits)
+                        q = S.QueueEncoder(); q.encode_symbol(sym, eb)
+                        qw, qbits = q.get_compressed_and_bitrate()
+                        if qbits != bits:
+                            fail("Python front end | Huffman code | stack and queue coder disagree on the codeword length", f"{wts}, symbol {sym}: {bits} vs {qbits}")
+                    if k >= 2:
+                        kraft = sum(2.0 ** -l for l in lens)
+                        if kraft != 1.0 or min(lens) < 1:
+                            fail("Python front end | Huffman code | Kraft sum is not one", f"{wts}: lengths {lens}")
+                        cost = sum(float(arr[i]) * lens[i] for i in range(k))
+                        ref = huffman_reference_cost([float(x) for x in arr]) if all(math.isfinite(x) and x >= 0 for x in wts) else cost
+                        if abs(cost - ref) > 1e-6 * max(ref, 1e-300) + 1e-30:
+                            fail("Python front end | Huffman code | not optimal", f"{wts}: lengths {lens} cost {cost}, optimum {ref}")
+                    # every message of up to 3 symbols over the alphabet (capped at 3 letters) through both coders
+                    alpha = list(range(min(k, 3)))
+                    for msg in small_messages(alpha, 3):
+                        counters["py_symbol_messages"] += 1
+                        st = S.StackCoder(); q = S.QueueEncoder()
+                        for s_ in msg:
+                            st.encode_symbol(s_, eb); q.encode_symbol(s_, eb)
+                        w, bits = st.get_compressed_and_bitrate()
+                        if bits != sum(lens[s_] for s_ in msg):
+                            fail("Python front end | StackCoder.get_compressed_and_bitrate | bit rate is not the sum of the codeword lengths", f"{wts}, {msg}: {bits}")
+                        st2 = S.StackCoder(w) if len(w) else S.StackCoder()
+                        try:
+                            got = [st2.decode_symbol(db) for _ in msg]
+                        except BaseException as e:
+                            got = repr(e)
+                        # a single-symbol alphabet has zero-length codewords: nothing to decode from
+                        if got != msg[::-1] and not (k == 1):
+                            fail("Python front end | StackCoder | exported and re-imported stack does not pop the symbols in reverse order", f"{wts}, {msg}: {got}")
+                        qd = q.get_decoder()
+                        try:
+                            got = [qd.decode_symbol(db) for _ in msg]
+                        except BaseException as e:
+                            got = repr(e)
+                        if got != msg and not (k == 1):
+                            fail("Python front end | QueueEncoder/QueueDecoder | symbols do not come back in order", f"{wts}, {msg}: {got}")
+                        qw, _ = q.get_compressed_and_bitrate()
+                        qd2 = S.QueueDecoder(qw)
+                        try:
+                            got = [qd2.decode_symbol(db) for _ in msg]
+                        except BaseException as e:
+                            got = repr(e)
+                        if got != msg and not (k == 1):
+                            fail("Python front end | QueueDecoder(words) | symbols do not come back in order", f"{wts}, {msg}: {got}")
+                    # symbols outside the alphabet are refused and leave the coder as it was
+                    for bad in (k, k + 1, 2**31, 2**40):
+                        st = S.StackCoder(); st.encode_symbol(0, eb)
+                        before = st.get_compressed_and_bitrate()
+                        try:
+                            st.encode_symbol(bad, eb)
+                            fail("Python front end | StackCoder.encode_symbol | symbol outside the Huffman alphabet is accepted", f"{wts}: symbol {bad}")
+                        except Exception as e:
+                            if is_panic(e): fail("Python front end | StackCoder.encode_symbol | symbol outside the Huffman alphabet panics", f"{wts}: symbol {bad}: {str(e)[:100]}")
+                        except BaseException as e:
+                            fail("Python front end | StackCoder.encode_symbol | symbol outside the Huffman alphabet panics", f"{wts}: symbol {bad}: {str(e)[:100]}")
+                        after = st.get_compressed_and_bitrate()
+                        if before[1] != after[1] or not np.array_equal(before[0], after[0]):
+                            fail("Python front end | StackCoder.encode_symbol | refused symbol changes the coder", f"{wts}: symbol {bad}")
+    return n, failures, counters
+
+
 def main():
     cmd = sys.argv[1]
     if cmd == "vectors":
@@ -389,6 +924,20 @@ def main():
         n, f, c = run_layouts()
     elif cmd == "constructors":
         n, f, c = run_constructors()
+    elif cmd == "decoders":
+        n, f, c = run_decoders(int(sys.argv[2]))
+    elif cmd == "bitsback":
+        n, f, c = run_bitsback(int(sys.argv[2]))
+    elif cmd == "chain":
+        n, f, c = run_chain(int(sys.argv[2]))
+    elif cmd == "seek":
+        n, f, c = run_seek(int(sys.argv[2]))
+    elif cmd == "impossible":
+        n, f, c = run_impossible(int(sys.argv[2]))
+    elif cmd == "sizes":
+        n, f, c = run_sizes(int(sys.argv[2]))
+    elif cmd == "symbol":
+        n, f, c = run_symbol(int(sys.argv[2]))
     else:
         print("unknown command", file=sys.stderr)
         sys.exit(2)
